@@ -14,6 +14,7 @@
  * FZ_SKIP: oid33
  */
 #define FZ_TARGET "fz_cms"
+#define FZ_DER_PREFIX 2
 #include "fz_common.h"
 #include <gmssl/asn1.h>
 #include <gmssl/oid.h>
